@@ -371,6 +371,13 @@ func gridE(tier string) []Spec {
 			out = append(out, Spec{Cipher: cipher, AddrType: cut % 3, Coalesce: cut % 2, Up: 100, Down: 50, Chunk: 16383, FirstCut: cut})
 		}
 	}
+	// the target half-closes first and has nothing to say (an empty target stream): the client
+	// sees the end of stream and only then uploads
+	for cipher := 0; cipher < 4; cipher++ {
+		for _, up := range []int{0, 100} {
+			out = append(out, Spec{Cipher: cipher, AddrType: cipher % 3, Coalesce: 0, Up: up, Down: 0, Chunk: 16383, Order: 1})
+		}
+	}
 	// connections that arrive long after the server started (6 s, 1 h, 5 h)
 	for cipher := 0; cipher < 4; cipher++ {
 		for _, start := range []int{6, 3600, 18000} {
